@@ -498,7 +498,6 @@ func closureCallSites(lit *ssa.Function) []closureCallSite {
 	return out
 }
 
-
 // literalCallArg: p is a parameter of a function literal whose only use is one go / call / defer statement of its enclosing
 // function that passes arguments: the argument for p (a value of the enclosing function), else nil.
 func literalCallArg(p *ssa.Parameter) ssa.Value {
